@@ -20,7 +20,7 @@ InCases == {[t |-> "in", family |-> fa, write |-> MCWritePaths[w], field |-> fm[
 OutCases == {[t |-> "out", family |-> fa, read |-> MCReadPaths[r], field |-> fm[1], mutation |-> fm[2]]
               : fa \in Families, r \in DOMAIN MCReadPaths, fm \in FieldMut}
 LawCases == {[t |-> "law", family |-> fa, field |-> fm[1], mutation |-> fm[2], shape |-> sh]
-              : fa \in Families, fm \in FieldMut, sh \in {"full", "empty"}}
+              : fa \in Families, fm \in FieldMut, sh \in {"full", "empty", "emptyAlloc"}}
 ASSUME \A c \in LawCases : PrintT(<<"CASE", ToJson(c)>>)
 ASSUME \A c \in InCases : PrintT(<<"CASE", ToJson(c)>>)
 ASSUME \A c \in OutCases : PrintT(<<"CASE", ToJson(c)>>)
